@@ -53,6 +53,8 @@ class Gen:
 
     def kv(self, maxkeys=12):
         r = self.r
+        if r.random() < 0.03:
+            return [(b"", b"")]                      # the one map whose only (and last) entry is 8 zero bytes
         n = r.choice([0, 0, 1, 2, 3, 5, maxkeys])
         m = {}
         for _ in range(n):
